@@ -59,9 +59,7 @@ func vfGenC16(t *rapid.T) vfC16Case {
 	c.FPS = rapid.SampledFrom([]int{2, 3, 9}).Draw(t, "fps")
 	c.Prev = rapid.IntRange(0, 1).Draw(t, "prev")
 	c.Trig = rapid.IntRange(1, 2).Draw(t, "trig")
-	if c.Prev*c.FPS+c.Trig < 2 {
-		c.Trig = 2 // ring capacity >= 2: 'recent' is a slot other than the one being received
-	}
+	// ring capacity 1 (preview 0, trigger-frames 1) included: 'recent' is then the very slot being received
 	c.Cont = rapid.Bool().Draw(t, "cont")
 	nreq := rapid.IntRange(1, 4).Draw(t, "nreq")
 	hasRec := false
@@ -104,8 +102,8 @@ func vfGenC16(t *rapid.T) vfC16Case {
 }
 
 func vfC16Valid(c vfC16Case) string {
-	if c.Procs < 1 || c.Procs > 64 || c.FPS < 1 || c.FPS > 30 || c.Prev < 0 || c.Trig < 0 || c.Prev*c.FPS+c.Trig < 2 || len(c.Conns) < 1 || len(c.Conns) > 6 || len(c.Req) > 8 {
-		return "outside the domain (ring capacity must be >= 2)"
+	if c.Procs < 1 || c.Procs > 64 || c.FPS < 1 || c.FPS > 30 || c.Prev < 0 || c.Trig < 0 || c.Prev*c.FPS+c.Trig < 1 || len(c.Conns) < 1 || len(c.Conns) > 6 || len(c.Req) > 8 {
+		return "outside the domain"
 	}
 	total := 0
 	for _, cn := range c.Conns {
@@ -445,6 +443,9 @@ func vfRunC16(c vfC16Case) *kit.Result {
 	if len(c.Conns) > 1 {
 		r.Class("reconnect")
 	}
+	if c.Prev*c.FPS+c.Trig == 1 {
+		r.Class("ring_capacity_1")
+	}
 	r.Class(fmt.Sprintf("gomaxprocs=%d", c.Procs))
 	if a.overlaps > 0 {
 		r.Class("request_overlapped_processing")
@@ -455,6 +456,6 @@ func vfRunC16(c vfC16Case) *kit.Result {
 
 func TestVF_C16(t *testing.T) {
 	kit.Drive(t, "C16", "TestVF_C16",
-		"generated schedules: 1-4 requester goroutines looping over scripts of {TakeSnapshot(-1 / last id), TakeTestRecording, CameraInfo, spin, yield, sleep} while 1-3 camera connections (reconnects, 'clear' markers, sender pauses at the lock-step barrier) feed uniform-valued frames of increasing value, GOMAXPROCS in {1,2,4,16}, ring capacity >= 2; built with the race detector. Oracle: every returned snapshot is uniform (a whole frame), stays unchanged while later frames arrive (an exact copy, re-checked after the ring has wrapped), and is at least as new as the newest frame known to be completely processed when the request started; CameraInfo returns a description some camera sent; the pipeline neither stalls nor dies; continuous files equal the request-free twin and every motion file of the twin is present unchanged (extra files are 21-frame test recordings); zero race reports. Non-trivial: a snapshot was returned for a request that overlapped the processing of a frame (measured with atomics around the barrier).",
+		"generated schedules: 1-4 requester goroutines looping over scripts of {TakeSnapshot(-1 / last id), TakeTestRecording, CameraInfo, spin, yield, sleep} while 1-3 camera connections (reconnects, 'clear' markers, sender pauses at the lock-step barrier) feed uniform-valued frames of increasing value, GOMAXPROCS in {1,2,4,16}, ring capacity 1 and up; built with the race detector. Oracle: every returned snapshot is uniform (a whole frame), stays unchanged while later frames arrive (an exact copy, re-checked after the ring has wrapped), and is at least as new as the newest frame known to be completely processed when the request started; CameraInfo returns a description some camera sent; the pipeline neither stalls nor dies; continuous files equal the request-free twin and every motion file of the twin is present unchanged (extra files are 21-frame test recordings); zero race reports. Non-trivial: a snapshot was returned for a request that overlapped the processing of a frame (measured with atomics around the barrier).",
 		vfGenC16, vfRunC16)
 }
